@@ -740,3 +740,44 @@ Definition snap_wf (cap : N) (n : snap) : bool :=
   (n_size n <=? cap) &&
   list_eqb N.eqb (sort_keys (n_queue n)) (map fst (filter row_evictable (n_blobs n))) &&
   forallb (fun r => Bool.eqb (row_node r) (row_evictable r)) (n_blobs n).
+
+(* ---------------------------------------------------------------- vocabulary of the theorem statements *)
+(* the key and scope an operation is issued with (through a scoped view of the store) *)
+Definition op_scope (o : op) : option (key * scope) :=
+  match o with
+  | Open k sc | OpenRead k sc | OpenWriteAt k sc _ _ | Has k sc | Stat k sc | Delete k sc
+  | Ban k sc | Unban k sc | SetMd k sc _ _ | GetMd k sc _ | DelMd k sc _ | ListMd k sc
+  | WriteAtMd k sc _ _ _ => Some (k, sc)
+  | _ => None
+  end.
+(* the same operation issued through the unscoped store *)
+Definition unscoped (o : op) : op :=
+  match o with
+  | Open k _ => Open k SAny
+  | OpenRead k _ => OpenRead k SAny
+  | OpenWriteAt k _ off d => OpenWriteAt k SAny off d
+  | Has k _ => Has k SAny
+  | Stat k _ => Stat k SAny
+  | Delete k _ => Delete k SAny
+  | Ban k _ => Ban k SAny
+  | Unban k _ => Unban k SAny
+  | SetMd k _ s v => SetMd k SAny s v
+  | GetMd k _ s => GetMd k SAny s
+  | DelMd k _ s => DelMd k SAny s
+  | ListMd k _ => ListMd k SAny
+  | WriteAtMd k _ s off v => WriteAtMd k SAny s off v
+  | o => o
+  end.
+
+(* the stored metadata value of (key, suffix), and the incarnation (data cell) of a key *)
+Definition md_of (kc : core) (k : key) (s : N) : option (list N) :=
+  match assoc k (k_blobs kc) with Some b => assoc s (b_mds b) | None => None end.
+Definition incarnation (kc : core) (k : key) : option N :=
+  match assoc k (k_blobs kc) with Some b => Some (b_cell b) | None => None end.
+(* operations that may change the metadata (k, s) of a blob that stays in the store *)
+Definition md_writes (o : op) (k : key) (s : N) : bool :=
+  match o with
+  | SetMd k' _ s' _ | DelMd k' _ s' | WriteAtMd k' _ s' _ _ => (k' =? k) && (s' =? s)
+  | MarkComplete k' => (k' =? k) && negb (sfx_movable s)
+  | _ => false
+  end.
